@@ -31,3 +31,15 @@ Theorem C16_shift_keeps_values : forall T d (w:@world T),
   map (fun kv => (fst kv, v_soc (snd kv))) (w_veh (sh_world d w)) = map (fun kv => (fst kv, v_soc (snd kv))) (w_veh w).
 Proof. intros. repeat split; try reflexivity. cbn. rewrite map_map. reflexivity. Qed.
 Print Assumptions C16_shift_keeps_values.
+
+(* isolation (greedy / balanced decision model): the step of one vehicle leaves every unrelated connector, station and
+   vehicle entry untouched — no hidden coupling between connectors in the modelled strategies *)
+From SV Require Import Battery Strat StratLocal.
+Theorem C16_unrelated_connector_untouched : forall T (N:Num T) (s:strat) (o:@sopts T) w cmds avail vid w' cmds' avail',
+  @vehicle_step T N s o (w, cmds, avail) vid = Ok (w', cmds', avail') ->
+  exists g0 c0, (forall g, g <> g0 -> Strat.lookup g (sw_gcs w') = Strat.lookup g (sw_gcs w) /\ Strat.lookup g avail' = Strat.lookup g avail) /\
+                (forall c, c <> c0 -> Strat.lookup c (sw_css w') = Strat.lookup c (sw_css w) /\ Strat.lookup c cmds' = Strat.lookup c cmds) /\
+                (forall v, v <> vid -> Strat.lookup v (sw_veh w') = Strat.lookup v (sw_veh w)) /\
+                sw_bats w' = sw_bats w /\ sw_order w' = sw_order w.
+Proof. intros T N. exact (@vehicle_step_local T N). Qed.
+Print Assumptions C16_unrelated_connector_untouched.
